@@ -187,7 +187,12 @@ Work ==
                         /\ viol' = viol \cup EffectDrift \cup ProbeFaults
      ELSE LET w == Pick
               s == StepOf(w)
-              fresh == s.succ \ (seen \cup {w})
+              known == seen \cup work \cup {w}
+              \* a successor that reaches a visited instruction at a GREATER height is recorded as a
+              \* conflict but not explored further (it can only grow); at a SMALLER height it is
+              \* explored, because it may run into an underflow
+              higher == {y \in s.succ : \E z \in known : z[1] = y[1] /\ z[2] = y[2] /\ z[3] < y[3]}
+              fresh == (s.succ \ (seen \cup {w})) \ higher
               \* one height per instruction: a successor reaching a visited ip at another height
               confl == {V("conflict", x[2]) : x \in {y \in s.succ :
                             \E z \in (seen \cup work \cup {w}) : z[1] = y[1] /\ z[2] = y[2] /\ z[3] # y[3]}}
